@@ -136,6 +136,13 @@ func (c *BlocksCase) Exec(t *eng.T) {
 		return
 	}
 	for _, b := range c.Blocks {
+		if _, wanted := c.Want[b]; !wanted {
+			if got, ok := res[b]; ok {
+				t.Fail("blocks:unknown-block-rendered:"+c.Label, "%s: block %q, which no template of the chain defines, is in the result (%q)", c.ID(), b, got)
+				return
+			}
+			continue
+		}
 		if got, ok := res[b]; !ok || got != c.Want[b] {
 			t.Fail("blocks:most-derived:"+c.Label, "%s: block %q renders %q (present %v), the most-derived definition renders %q", c.ID(), b, got, ok, c.Want[b])
 			return
@@ -612,7 +619,7 @@ func run(r *eng.Runner) {
 		}
 	}
 
-	r.Group("execute-blocks", "c10.blocks", "ExecuteBlocks on the leaf of 2- and 3-level chains, the requested blocks spread over the levels (the leaf defines at least one of them): a block whose most-derived definition renders nothing stays empty, an inherited block comes from the nearest ancestor that defines it")
+	r.Group("execute-blocks", "c10.blocks", "ExecuteBlocks on the leaf of 2- and 3-level chains, the requested blocks spread over the levels (also when the executed template defines none of them itself): a block whose most-derived definition renders nothing stays empty, an inherited block comes from the nearest ancestor that defines it")
 	{
 		base3 := "[{% block note %}N0{% endblock %}|{% block title %}T0{% endblock %}|{% block foot %}F0{% endblock %}]"
 		cases := []BlocksCase{
@@ -624,6 +631,13 @@ func run(r *eng.Runner) {
 				Files: map[string]string{"/base": base3, "/mid": `{% extends "base" %}{% block title %}T1{% endblock %}{% block note %}N1{% endblock %}`, "/leaf": `{% extends "mid" %}{% block note %}N2{% endblock %}`}},
 			{Label: "three-levels-empty-middle", Leaf: "/leaf", Blocks: []string{"note", "title", "foot"}, Want: map[string]string{"note": "N2", "title": "", "foot": "F0"},
 				Files: map[string]string{"/base": base3, "/mid": `{% extends "base" %}{% block title %}{% if no %}t{% endif %}{% endblock %}`, "/leaf": `{% extends "mid" %}{% block note %}N2{% endblock %}`}},
+			// the executed template defines none of the requested blocks itself
+			{Label: "none-in-leaf", Leaf: "/leaf", Blocks: []string{"title", "foot"}, Want: map[string]string{"title": "T0", "foot": "F0"},
+				Files: map[string]string{"/base": base3, "/leaf": `{% extends "base" %}{% block note %}n{% endblock %}`}},
+			{Label: "leaf-without-blocks", Leaf: "/leaf", Blocks: []string{"note"}, Want: map[string]string{"note": "N1"},
+				Files: map[string]string{"/base": base3, "/mid": `{% extends "base" %}{% block note %}N1{% endblock %}`, "/leaf": `{% extends "mid" %}`}},
+			{Label: "only-in-base", Leaf: "/leaf", Blocks: []string{"foot", "nosuch"}, Want: map[string]string{"foot": "F0"},
+				Files: map[string]string{"/base": base3, "/mid": `{% extends "base" %}{% block note %}N1{% endblock %}`, "/leaf": `{% extends "mid" %}{% block title %}t{% endblock %}`}},
 			{Label: "all-in-leaf", Leaf: "/leaf", Blocks: []string{"note", "title"}, Want: map[string]string{"note": "n", "title": "t"},
 				Files: map[string]string{"/base": base3, "/leaf": `{% extends "base" %}{% block note %}n{% endblock %}{% block title %}t{% endblock %}`}},
 		}
